@@ -360,8 +360,9 @@ Definition check_c11 (c : c11case) : bool :=
   vec_close (global_trust (ln_table tbl) st d) obs.
 
 Definition closed_set (st : state FloatF) (Sy : list N) : bool :=
+  let ns := node_set st in
   forallb (fun e => negb (memN (e_to e) Sy) || memN (e_from e) Sy) (pos_edges (st_local st)) &&
-  forallb (fun i => memN i (node_set st) && negb (memN i (st_pre st))) Sy &&
+  forallb (fun i => memN i ns && negb (memN i (st_pre st))) Sy &&
   Nat.eqb (length (dedupN Sy)) (length Sy).
 
 Definition equal_factors (tbl : list (N * float)) (st : state FloatF) : bool :=
